@@ -700,12 +700,22 @@ func (e *Exec) callByContract(fr *Frame, st *BState, x *ssa.Call, f *ssa.Functio
 		if os.Getenv("GOVC_DEBUG") != "" {
 			fmt.Fprintf(os.Stderr, "frame of %s: %v\n", label, keys)
 		}
+		preFrontier := e.frontier(st)
 		for k, h := range st.heap {
 			for pre := range keys {
 				if strings.HasPrefix(k, pre) {
 					st.heap[k] = e.havocHeapKey(k, h, "call."+f.Name()+".")
 					break
 				}
+			}
+			if keys["J|new"] && !keys["J|"] && strings.HasPrefix(k, "J|") {
+				// the callee only creates JSON values and fills those: everything allocated before the call is unchanged
+				nh := e.fresh("call."+f.Name()+".new."+k, h.Sort)
+				nbound++
+				a := mk(SInt, fmt.Sprintf("a!q%d", nbound))
+				inner := h.Sort[len("(Array Int ") : len(h.Sort)-1]
+				e.assume(mk(SBool, "forall", mk("binder", "(("+a.Op+" Int))"), implies(lt(a, preFrontier), eq(sel(nh, a, inner), sel(h, a, inner)))))
+				st.heap[k] = nh
 			}
 		}
 		epochCounter++
